@@ -62,6 +62,16 @@ DIRECTED = [
     ('A\\begin{verbatim}\t\nxyz\\end{verbatim}B', {}),
     ('a -- b --- c `` d \'\' e ~ f \\, g', {}),
     ('\\textbf{a \\emph{b \\unk{c}}} $x \\text{d e} y$ \\footnote{f g}', {}),
+    # multi-language mode: short insertions with white space at their edges,
+    # the sentence goes on behind them
+    ('\\usepackage{babel}We say \\foreignlanguage{german}{Guten Morgen } xyz dqc.',
+     {'multi': True, 'lang': 'en-GB'}),
+    ('\\usepackage{babel}Abc  \\foreignlanguage{german}{ Wort }  xyz \\foreignlanguage{german}{ Tag}\nqkj.',
+     {'multi': True, 'lang': 'en-GB'}),
+    ('\\usepackage{babel}Abc\n\\begin{otherlanguage}{german}\nWort\n\\end{otherlanguage}\nxyz qkj.',
+     {'multi': True, 'lang': 'en-GB', 'thresh': 5}),
+    # German shorthands map to the first character of the sequence
+    ('\\usepackage[german]{babel}A "a "O "s "` x "\' y "= z "- k "~ q "| w "" v', {'lang': 'de-DE'}),
 ]
 
 
@@ -124,6 +134,19 @@ def oracle_all(c, d, kind, im):
                         and src[x - 1] != ch and src.count(ch) == 1:
                     return ('character %r maps to offset %d which holds %r'
                             % (ch, x - 1, src[x - 1]))
+        # German shorthands: the replacement maps to the quotation mark
+        if (c.lang or '').startswith('de') and '"' in src and 'babel' in src:
+            short = {'a': '\xe4', 'o': '\xf6', 'u': '\xfc', 'A': '\xc4', 'O': '\xd6', 'U': '\xdc',
+                     's': '\xdf', '`': '\u201e', "'": '\u201c', '=': '-'}
+            for m in re.finditer(r'"(.)', src):
+                val = short.get(m.group(1))
+                if val is None:
+                    continue
+                hit = [x for _, t, p in universe.texts_of(im) for ch, x in zip(t, p) if ch == val]
+                if hit and m.start() + 1 not in hit and src.count('"' + m.group(1)) == 1 \
+                        and sum(t.count(val) for _, t, _ in universe.texts_of(im)) == 1:
+                    return ('shorthand %r at offset %d: its replacement %r maps to %r, not to '
+                            'the first character of the sequence' % (m.group(0), m.start(), val, hit))
     return None
 
 
